@@ -9,6 +9,18 @@ MODELLED = ('Trusted: Coq 8.16.1 kernel (no axioms: every theorem in coq/Props/%
             'the Python harness abstraction/canonicalisation. ')
 
 CHECKS = {
+    'C15': dict(
+        text='Theorems over the model of check_binary_file (reported offset = first differing byte, lengths exact, '
+             'for all byte strings) and of add_failures (a pass writes and names nothing; every named file is given '
+             'or written; the post-processed pair exists when exclusions were in force). The reconstruction itself is '
+             'part of the check_strings model and is compared byte-for-byte with the files the real assertions write; '
+             'an oracle checks that the pair differs exactly on the unexcused pairs.',
+        note='partial: that the reconstruction differs exactly on the unexcused lines is checked by oracle and '
+             'correspondence on generated cases (same-number-of-lines path), not yet by a theorem; file-system '
+             'behaviour is observed (tmp dir listing, watched data dir), not modelled.',
+        technique='Coq proof (binary_offset_exact, artefact-set theorems) + extracted-model correspondence on '
+                  'written files + property oracle',
+        design='7 C15'),
     'C04': dict(
         text='Theorems over an executable Gallina model of check_strings/wrong_content/wrong_number/can_ignore/'
              'check_patterns and the string/file entry points: verdict = Pass <-> the declarative rule of the '
